@@ -768,6 +768,7 @@ struct SchedMachine : Machine {
       bool fs = cfg.below(3) == 0;
       std::string snap = fs ? (cfg.below(12) == 0 ? SNAPSHOTS_BIG[cfg.below(3)] : SNAPSHOTS[cfg.below(NSNAP)]) : "-";
       c += " fsroot=" + enc(snap);
+      if (fs && ((seed >> 23) & 3) == 0) c += " wide=1";   // no extra draw: a quarter of the snapshot runs discover the wide-mask variant of the tree
       for (int t = 0; t < T; t++) {
         int ntopo = (int)ops.range(1, 2);
         for (int q = 0; q < ntopo; q++) {
@@ -808,10 +809,40 @@ struct SchedMachine : Machine {
     return c;
   }
 
-  std::string snapshot_dir(const std::string &name) {
+  // "wide" variant of a snapshot: every sysfs cpumask file (cpumap, *_siblings, *_cpus, shared_cpu_map, local_cpus) is widened to 32 words with CPU 1023 set,
+  // which is what a kernel built for 1024 CPUs prints on a machine with one more possible (absent) CPU. hwloc's mask reader then has to grow its word array past the initial
+  // 8 entries and publishes the final size in a process-wide static - in every task that discovers such a tree.
+  static void widen_masks(const std::string &dir, int depth = 0) {
+    if (depth > 12) return;
+    DIR *d = opendir(dir.c_str()); if (!d) return;
+    std::vector<std::string> names; struct dirent *e; while ((e = readdir(d)) != nullptr) if (strcmp(e->d_name, ".") && strcmp(e->d_name, "..")) names.push_back(e->d_name); closedir(d);
+    static const char *MASKS[] = {"cpumap", "thread_siblings", "core_siblings", "core_cpus", "die_cpus", "cluster_cpus", "package_cpus", "book_siblings", "drawer_siblings", "shared_cpu_map", "local_cpus"};
+    for (auto &n : names) {
+      std::string path = dir + "/" + n; struct stat st; if (lstat(path.c_str(), &st)) continue;
+      if (S_ISDIR(st.st_mode)) { widen_masks(path, depth + 1); continue; }
+      if (!S_ISREG(st.st_mode) || st.st_size == 0 || st.st_size > 4096) continue;
+      bool is = false; for (auto m : MASKS) if (n == m) is = true; if (!is) continue;
+      std::ifstream in(path); std::string c((std::istreambuf_iterator<char>(in)), std::istreambuf_iterator<char>()); in.close();
+      std::string body = c; while (!body.empty() && (body.back() == '\n' || body.back() == ' ')) body.pop_back();
+      bool hex = !body.empty(); for (char ch : body) if (!isxdigit((unsigned char)ch) && ch != ',') hex = false; if (!hex) continue;
+      // the kernel prints 32-bit words; the first word of the original may be shorter than 8 digits: pad it first
+      size_t comma = body.find(','); std::string firstw = body.substr(0, comma); std::string rest = comma == std::string::npos ? "" : body.substr(comma);
+      while (firstw.size() < 8) firstw = "0" + firstw;
+      // the top word names one more CPU (1023) that has no cpuN directory - a possible-but-absent CPU, which real masks of hot-pluggable machines do
+      // contain: leading all-zero words would simply be skipped by the reader, a set high bit makes it keep all 32 words
+      std::string wide = "80000000,"; for (int i = 0; i < 23; i++) wide += "00000000,"; wide += firstw + rest + "\n";
+      chmod(path.c_str(), 0600); std::ofstream out(path, std::ios::trunc); out << wide;
+    }
+  }
+
+  std::string snapshot_dir(const std::string &name0, bool wide = false) {
+    std::string name = name0 + (wide ? "+wide" : "");
     auto it = extracted.find(name);
     if (it != extracted.end()) return it->second;
-    std::string tarball = dataroot + "/linux/" + name + ".tar.bz2", base = std::string(scratch_dir()) + "/snap." + std::to_string(extracted.size());
+    if (wide) { std::string plain = snapshot_dir(name0, false); std::string dir;
+      if (!plain.empty()) { std::string base = std::string(scratch_dir()) + "/snap." + std::to_string(extracted.size()) + "w"; std::string cmd = "cp -a '" + plain + "' '" + base + "' 2>/dev/null"; if (!system(cmd.c_str())) { widen_masks(base); dir = base; } }
+      extracted[name] = dir; return dir; }
+    std::string tarball = dataroot + "/linux/" + name0 + ".tar.bz2", base = std::string(scratch_dir()) + "/snap." + std::to_string(extracted.size());
     struct stat st;
     std::string dir;
     if (!stat(tarball.c_str(), &st)) {
@@ -928,7 +959,8 @@ struct SchedMachine : Machine {
     // ---------------- workload B
     std::string snap = dec(p.hk("cfg", "fsroot", "-"));
     std::string fsdir;
-    if (snap != "-") { fsdir = snapshot_dir(snap); if (fsdir.empty()) r.count("snapshot_unavailable"); }
+    bool wide = p.hki("cfg", "wide", 0) != 0;
+    if (snap != "-") { fsdir = snapshot_dir(snap, wide); if (fsdir.empty()) r.count("snapshot_unavailable"); else if (wide) r.count("probe.workloadB_wide_mask_runs"); }
     if (!fsdir.empty()) {
       setenv("HWLOC_FSROOT", fsdir.c_str(), 1); setenv("HWLOC_COMPONENTS", "linux,stop", 1); setenv("HWLOC_DUMPED_HWDATA_DIR", "/var/run/hwloc", 1);
       r.count("probe.workloadB_fsroot_runs");
